@@ -206,7 +206,7 @@ func genNegScript(g G, devPct int) NegScript {
 	s.ExtraFeats = g.Bool("extrafeats")
 	s.Session = g.N("session", 3)
 	s.SM = g.Bool("srvsm")
-	s.Resume = g.Weighted("resume", 5, 1, 3, 1, 1, 1, 2)
+	s.Resume = g.Weighted("resume", 5, 1, 3, 1, 1, 1, 1, 2)
 	if s.Resume == ResumeUnreadable {
 		s.ResumeAlt = g.N("resume-alt", len(ResumeUnreadableReplies))
 	}
